@@ -5,7 +5,8 @@ import Goyang.Spec.Types
 Driver for type resolution (C09).
 
   types <files in wire format>
-      -> ok TD <n> <err>*n ( L <key> <dump|nil> <defaults> <n> <err>*n )*
+      -> ok ID <n> <err>*n TD <n> <err>*n ( L <key> <dump|nil> <defaults> <n> <err>*n )*
+         ID: the errors of `resolveIdentities` (Goyang.Model.Identity; `process` reports them beside TD);
          TD: the errors of `resolveTypedefs` (document order);
          L:  one item per `leaf` / `leaf-list` statement of every loaded (sub)module (load order,
              document order), key = file:line:col of the statement, `dump` = `YType.dump` of what
@@ -20,7 +21,7 @@ Driver for type resolution (C09).
                                   resolved type must show this projection (`Spec.Types.SType.dump`)
                  | ERR            a name is unknown, a prefix unknown, or the derivation is cyclic:
                                   the reference must be reported as an error
-                 | NOCLAIM        the schema is outside the claim (two visible typedefs of one name
+                 | NOCLAIM:<why>  the schema is outside the claim (two visible typedefs of one name
                                   in one scope or module, re-listed enum/bit members, …)
 -/
 open Goyang Goyang.Proto Goyang.Model
@@ -55,9 +56,12 @@ def runTypes (files : List SrcFile) : String :=
     if !linkOk reg then "linkfail" else
     let env := Env.of reg
     let td := resolveAllTypedefsE env
+    let idErrs := match Identity.resolveIdentities (Identity.Oracle.ofNat 0) reg env.link (fun _ => []) with
+      | some res => res.errs
+      | none => [Err.bare "out-of-fuel"]
     let leaves := reg.mods.flatMap fun m =>
       (collect ["leaf", "leaf-list"] [] m.stmt).map fun (l, up) => leafItem env m l up
-    "ok TD " ++ errsText td ++ String.join leaves
+    "ok ID " ++ errsText idErrs ++ " TD " ++ errsText td ++ String.join leaves
 
 open Goyang.Spec.Types in
 def runSpec (files : List SrcFile) : String :=
@@ -73,7 +77,7 @@ def runSpec (files : List SrcFile) : String :=
              match specResolve reg (specFuel reg) m (l :: up) t [] with
              | .ok st => "T" ++ st.dump
              | .error => "ERR"
-             | .noClaim => "NOCLAIM")
+             | .noClaim why => "NOCLAIM:" ++ why)
     "ok" ++ String.join leaves
 
 end Drv.Types
